@@ -48,10 +48,10 @@ theorem procLookup_fs (s : St) (c : Ctx) (args : Bytes) : (procLookup s c args).
       · split
         · rfl
         · split
-          · rfl
+          · rw [lookupDirAttr_fst, getAttrOr_fs]
           · split
-            · rename_i h; exact lookupPath_fs' h
-            · rename_i h; simp only [allocate_fs]; exact lookupPath_fs' h
+            · rename_i h; rw [lookupDirAttr_fst, getAttrOr_fs]; exact lookupPath_fs' h
+            · rename_i h; simp only [lookupDirAttr_fst, getAttrOr_fs, allocate_fs]; exact lookupPath_fs' h
 
 theorem procAccess_fs (s : St) (c : Ctx) (args : Bytes) : (procAccess s c args).1.fs = s.fs := by
   unfold procAccess
